@@ -177,6 +177,25 @@ def check_state(rep, kind, f, ctx):
     return bad
 
 
+def query_through_views(rep, kind, f, snap, ctx):
+    """queries are observations: asking views of the directories (opendir(d).getinfo('/'), listdir, exists…) must
+    leave every answer of the filesystem itself as it was — the equalities are evaluated again afterwards
+    (a wrapper that caches Info objects must not let a view rename them)"""
+    dirs = [e[1] for e in snap if e[0] == "D"][:6]
+    for d in dirs:
+        try:
+            v = f.opendir(d)
+            v.getinfo("/")
+            v.getinfo("", namespaces=["details"])
+            v.listdir("/")
+            v.exists("/")
+            list(v.scandir(""))
+        except Exception:  # noqa
+            continue
+    if dirs:
+        check_state(rep, kind + "+views", f, dict(ctx, after="opendir(d).getinfo('/') for d in %r" % dirs))
+
+
 def info_accessor_grid(rep, rng, n_random):
     """Info accessors are the exact conversions of the raw values: constructed raw infos over a
     grid of edge values (epoch 0, negative, fractional, None; every type; permission sets)."""
@@ -286,10 +305,13 @@ def run(rep, tier, seed, deep=False):
                         if i % every == every - 1 or i == n_ops - 1:
                             rep.nontrivial(kind, H.enc_tree(snap))
                             check_state(rep, kind, b.fs, {"history": ops[-8:]})
+                            if i == n_ops - 1:
+                                query_through_views(rep, kind, b.fs, snap, {"history": ops[-8:]})
                     if snap:
                         for vk, vfs, _ in derived_views(b, snap):
                             rep.nontrivial(vk, H.enc_tree(snap))
                             check_state(rep, vk, vfs, {"tree": [e[:2] for e in snap][:12]})
+                            query_through_views(rep, vk, vfs, snap, {"tree": [e[:2] for e in snap][:12]})
                             try:
                                 vfs.close() if vk.endswith("-r") else None
                             except Exception:
